@@ -80,6 +80,16 @@ theorem paging_requests_in_order (pages : List Page) (faults : List Attempt) (op
   intro a ha b hb hab
   rw [(inv.a.log_ok a ha).1, (inv.a.log_ok b hb).1, hab]
 
+/-- A server that answers as a FUNCTION OF THE PRESENTED PAGING STATE (as real servers do) and would
+answer the states of the script's chain with the script's pages, answers every request the pager ever
+sends for page `k` with page `k`: the positional script of the model loses nothing. -/
+theorem state_keyed_server_sees_script (pages : List Page) (faults : List Attempt) (ops : List Op)
+    (f : Option PState → Page) (hf : ∀ k, f (stateBefore pages k) = pageAt pages k) :
+    ∀ e ∈ (run (init pages faults) ops).log, f e.2 = pageAt pages e.1 := by
+  intro e he
+  rw [paging_state_chain pages faults ops e he]
+  exact hf e.1
+
 example : (run (init [([0], some [7]), ([1], some [8, 9]), ([], none)] [.ok, .retry, .retry, .ok])
     [.prod, .prod, .prod, .prod, .prod, .poll, .poll, .prod, .prod]).log
     = [(0, none), (1, some [7]), (1, some [7]), (1, some [7]), (2, some [8, 9])] := by decide
